@@ -32,6 +32,7 @@ from lib import Err
 
 IN, CH, HS, NONE, ANY = 1, 3, 4, 254, 255
 A, NS, CNAME, SOA, PTR, MX, TXT, AAAA, SRV, OPT, RRSIG, TSIG = 1, 2, 5, 6, 12, 15, 16, 28, 33, 41, 46, 250
+SIG = 24
 
 SPECIAL_OPTIONS = sorted(int(k) for k in dns.edns._type_to_class)
 
@@ -125,7 +126,7 @@ def exc_code(e):
 
 def modelled(rdclass, rdtype):
     """does the Coq model have a reader for this (class, type)?  (generic types are modelled)"""
-    if rdtype in (NS, CNAME, PTR, MX, SOA, TXT, RRSIG, TSIG, OPT):
+    if rdtype in (NS, CNAME, PTR, MX, SOA, TXT, RRSIG, SIG, TSIG, OPT):
         return True
     if rdclass == IN and rdtype in (A, AAAA, SRV):
         return True
@@ -174,7 +175,7 @@ def mk_rdata(rdclass, rdtype, rd):
             strings.append(b[i + 1 : i + 1 + b[i]])
             i += 1 + b[i]
         return cls(rdclass, rdtype, strings)
-    if rdtype == RRSIG:
+    if rdtype in (RRSIG, SIG):
         hdr = struct.unpack("!HBBIIIH", piece_bytes(rd, 0))
         sig = piece_bytes(rd, 2) if len(rd) > 2 else b""
         return cls(rdclass, rdtype, *hdr, piece_name(rd, 1), sig)
@@ -333,7 +334,7 @@ def rdata_pieces(rd):
                 struct.pack("!IIIII", rd.serial, rd.refresh, rd.retry, rd.expire, rd.minimum)]
     if t == TXT:
         return [b"".join(bytes([len(s)]) + s for s in rd.strings)]
-    if t == RRSIG:
+    if t in (RRSIG, SIG):
         return [struct.pack("!HBBIIIH", rd.type_covered, rd.algorithm, rd.labels, rd.original_ttl,
                             rd.expiration, rd.inception, rd.key_tag),
                 [1, labels_of(rd.signer)], bytes(rd.signature)]
@@ -454,7 +455,7 @@ def _patched_get_rdata_class(rdclass, rdtype, use_generic=True):
 
 
 def modelled_fast(c, t):
-    return (t in (NS, CNAME, PTR, MX, SOA, TXT, RRSIG, TSIG, OPT) or (c == IN and t in (A, AAAA, SRV))
+    return (t in (NS, CNAME, PTR, MX, SOA, TXT, RRSIG, SIG, TSIG, OPT) or (c == IN and t in (A, AAAA, SRV))
             or field_spec(c, t) is not None)
 
 
@@ -594,7 +595,7 @@ def walk_name(wire, off, label_starts):
 
 
 NAME_FIELDS = {NS: ["n"], CNAME: ["n"], PTR: ["n"], MX: [2, "n"], SOA: ["n", "n", 20], SRV: [6, "n"],
-               RRSIG: [18, "n", None], TSIG: ["n", None],
+               RRSIG: [18, "n", None], SIG: [18, "n", None], TSIG: ["n", None],
                AFSDB: [2, "n"], RT: [2, "n"], RP: ["n", "n"], KX: [2, "n"], PX: [2, "n", "n"],
                NAPTR: [4, "c8", "c8", "c8", "n"], DNAME: ["n"], NSAP_PTR: ["n"], NSEC: ["n", None],
                LP: [2, "n"], TKEY: ["n", None]}
@@ -816,7 +817,7 @@ def gen_rdata(rng, pool, rdclass, rdtype):
             n = rng.choice([0, 1, 5, 20, 255, rng.randrange(256)])
             b += bytes([n]) + bytes(rng.randrange(256) for _ in range(n))
         return [b]
-    if rdtype == RRSIG:
+    if rdtype in (RRSIG, SIG):
         covered = rng.choice([A, NS, MX, SOA, TXT, 65280])
         hdr = struct.pack("!HBBIIIH", covered, rng.randrange(256), rng.randrange(8), rng.randrange(2**32),
                           rng.randrange(2**32), rng.randrange(2**32), rng.randrange(65536))
@@ -878,7 +879,7 @@ def gen_rdata(rng, pool, rdclass, rdtype):
 
 FIELD_TYPES_ALL = sorted(FIELD_TYPES_ANY) + sorted(FIELD_TYPES_IN)
 GENERIC_TYPES = [65280, 65534, 3, 4, 10, 31, 30, 100, 254, 255, 40, 65535, 0]
-TYPES_IN = [A, A, NS, CNAME, SOA, PTR, MX, MX, TXT, AAAA, SRV, RRSIG, RRSIG, NS]
+TYPES_IN = [A, A, NS, CNAME, SOA, PTR, MX, MX, TXT, AAAA, SRV, RRSIG, RRSIG, NS, SIG]
 TTL_CHOICES = [0, 1, 300, 3600, 86400, 2**31 - 1]
 
 
@@ -927,7 +928,7 @@ def gen_rrset(rng, pool, rdclass=IN, types=None, used=None, section=1):
         covers = 0
         for _ in range(k):
             rd = gen_rdata(rng, pool, rdclass, rdtype)
-            if rdtype == RRSIG:
+            if rdtype in (RRSIG, SIG):
                 c = struct.unpack("!H", rd[0][:2])[0]
                 if rds and c != covers:
                     continue
@@ -1005,9 +1006,9 @@ def gen_query_like(rng, origin=None, size="small", opcode=None, with_opt=True, w
             rs = gen_rrset(rng, pool, rdclass, used=used, section=s)
             if rs is not None:
                 secs[s].append(rs)
-                if rs[2] == RRSIG and rng.random() < 0.6:
+                if rs[2] in (RRSIG, SIG) and rng.random() < 0.6:
                     # a second RRSIG set with the same owner covering another type (the index key has `covers`)
-                    sib = gen_rrset(rng, pool, rdclass, types=[RRSIG], used=None, section=s)
+                    sib = gen_rrset(rng, pool, rdclass, types=[rs[2]], used=None, section=s)
                     if sib is not None and sib[3] != rs[3]:
                         sib[0] = rs[0]
                         full = sib[0] if (sib[0] and sib[0][-1] == b"") or pool.origin is None else sib[0] + pool.origin
